@@ -1,0 +1,11 @@
+//go:build !verif
+
+// Package verifhook provides pause/fault points for the external verification
+// harness. Without the "verif" build tag every function is an empty stub.
+package verifhook
+
+// At marks a named point in the code. It does nothing in regular builds.
+func At(point, detail string) {}
+
+// AtI is At with an index appended to the detail ("detail#i").
+func AtI(point, detail string, i int) {}
